@@ -246,6 +246,8 @@ def eval_case(case):
         f['detail'] = f'{cls}{size} {case.get("deformation")}: ' + f['detail']
     labels = [cls, f'd={d}', 'exhaustive' if decided else 'searched_only',
               'css' if css else 'noncss']
+    if case.get('elongated'):
+        labels.append('elongated')
     return {'fails': fails, 'nontrivial': decided and d >= 3, 'labels': labels,
             'evals': max(1, cand),
             'aux': {'decided': decided, 'id': f'{cls}{size}', 'd': d, 'n': n}}
@@ -256,7 +258,7 @@ def case_sig(case):
     return s(case)
 
 
-def cases_for(max_n, budget, isd_iters, seed, max_L, max_L_2d, max_color):
+def cases_for(max_n, budget, isd_iters, seed, max_L, max_L_2d, max_color, elongated):
     out = []
     for i, c in enumerate(domain.all_code_cases(
             max_L, max_L_2d, max_color, max_n=max_n, with_deformations=False, thin=True)):
@@ -269,6 +271,31 @@ def cases_for(max_n, budget, isd_iters, seed, max_L, max_L_2d, max_color):
             continue
         out.append(dict(c, budget=budget, isd_iters=isd_iters,
                         rseed=seed * 31 + i))
+    # elongated lattices: one side far longer than the others, where the
+    # lightest logical is not the one along the short side (a ring through a
+    # cavity, a membrane lighter than a string)
+    long_top, cross = elongated
+    seen = {(c['cls'], tuple(c['size'])) for c in out}
+    j = len(out)
+    for cls in domain.CODE_CLASSES:
+        dim = domain.DIM[cls]
+        if cls in domain.COLOR_2D:
+            continue
+        shapes = set()
+        for L in range(2, long_top + 1):
+            for rest in itertools.product(cross, repeat=dim - 1):
+                shapes.update(itertools.permutations((L,) + rest))
+        for size in sorted(shapes):
+            if (cls, size) in seen or not domain.size_ok(cls, size, thin=True):
+                continue
+            if domain.n_estimate(cls, size) > max_n:
+                continue
+            c = domain.code_case(cls, size)
+            if case_sig(c).get('slab_hole'):
+                continue
+            j += 1
+            out.append(dict(c, budget=budget, isd_iters=isd_iters, rseed=seed * 31 + j,
+                            elongated=True))
     # every deformation x axis of every instance reports the same d
     for c in list(out):
         if domain.get_class(c['cls']).deformation_names:
@@ -284,9 +311,9 @@ def cases_for(max_n, budget, isd_iters, seed, max_L, max_L_2d, max_color):
 
 def run(ctx):
     if ctx.tier == 'quick':
-        cases = cases_for(130, 1500000, 20, ctx.seed, 5, 8, 3)
+        cases = cases_for(150, 1500000, 20, ctx.seed, 5, 8, 3, (10, (2, 3)))
     else:
-        cases = cases_for(320, 20000000, 300, ctx.seed, 6, 12, 4)
+        cases = cases_for(320, 20000000, 300, ctx.seed, 6, 12, 4, (14, (2, 3, 4)))
     ctx.note('instances', len(cases))
     ctx.note('excluded_from_domain',
              'Color666ToricCode with L_x != L_y (logicals cannot be built) and HollowRhombicCode '
